@@ -68,9 +68,9 @@ StmtTarget(e) ==  \* target of the arc labelled `stmt` in e's state, or 0  (tos.
 (* of the nodes built so far in this entry (pre-collapse bookkeeping: a    *)
 (* closed subtree is summarised by its symbol).                            *)
 (***************************************************************************)
-VARIABLES stack, lastNL, ic, omit, errored, status, bad, out, toks, nrec, errAt,
+VARIABLES stack, lastNL, ic, omit, errored, status, bad, out, toks, nrec, errAt, sid,
           envNL, envInd, envAfterIndent, envAfterDedent, envClosing, envMidline
-pvars == <<stack, lastNL, ic, omit, errored, status, bad, out, toks, nrec, errAt>>
+pvars == <<stack, lastNL, ic, omit, errored, status, bad, out, toks, nrec, errAt, sid>>
 evars == <<envNL, envInd, envAfterIndent, envAfterDedent, envClosing, envMidline>>
 vars == <<pvars, evars>>
 
@@ -227,6 +227,7 @@ Init ==
   /\ stack = << [r |-> StartR, k |-> 1, n |-> 0, syms |-> <<>>, shown |-> <<>>] >>
   /\ lastNL = FALSE /\ ic = 0 /\ omit = <<>> /\ errored = FALSE /\ status = "run" /\ bad = <<>> /\ out = <<>>
   /\ toks = <<>> /\ nrec = 0 /\ errAt = 0
+  /\ sid \in (IF EnvMode = "script" THEN 1..Len(PB.scripts) ELSE {0})
   /\ envNL = TRUE /\ envInd = 0 /\ envAfterIndent = FALSE /\ envAfterDedent = FALSE
   /\ envClosing = FALSE /\ envMidline = FALSE
 
@@ -238,7 +239,12 @@ Cur(icv) == Res(stack, lastNL, omit, errored, "run", bad, out, icv, nrec, errAt)
 Closers == {PB.closers[i] : i \in 1..Len(PB.closers)}
 ErrLevels == {PB.errlevels[i] : i \in 1..Len(PB.errlevels)}
 ClosingPhase == PB.closeat > 0 /\ TLCGet("level") >= PB.closeat
+(* "script" mode: the environment follows one of the given token sequences (arc-cover sentences computed by the
+   harness from the exported DFAs); TLC then produces the derivation of each. *)
+Scripted(t) == EnvMode = "script" => /\ Len(toks) < Len(PB.scripts[sid])
+                                     /\ t = PB.scripts[sid][Len(toks) + 1]
 ModeAllows(t, r) ==
+  /\ Scripted(t)
   /\ (ClosingPhase => t \in Closers)
   /\ (EnvMode = "valid" => ~r.err)
   /\ (EnvMode = "broken" => (r.nrec = nrec \/ (TLCGet("level") \in ErrLevels /\ r.nrec <= PB.errbudget)))
@@ -252,14 +258,14 @@ Feed(t) ==
      THEN (* FilterDedent (_recovery_tokenize): the DEDENT of a discarded INDENT never reaches the parser *)
           /\ omit' = SubSeq(omit, 1, Len(omit) - 1) /\ ic' = ic - 1
           /\ toks' = (IF Hist THEN Append(toks, t) ELSE toks)
-          /\ (ClosingPhase => t \in Closers)
-          /\ UNCHANGED <<stack, lastNL, errored, status, bad, out, nrec, errAt>>
+          /\ (ClosingPhase => t \in Closers) /\ Scripted(t)
+          /\ UNCHANGED <<stack, lastNL, errored, status, bad, out, nrec, errAt, sid>>
      ELSE /\ ic' = IF Mode # "recover" THEN ic
                    ELSE IF t = DEDENT THEN ic - 1 ELSE IF t = INDENT THEN ic + 1 ELSE ic
           /\ LET r0 == AddTok(Cur(ic'), t, 4)
                  r == IF t = ENDMARKER /\ r0.status = "run" THEN Unwind(r0) ELSE r0
              IN /\ ModeAllows(t, r) /\ Report(t, r)
-                /\ toks' = (IF Hist THEN Append(toks, t) ELSE toks) /\ nrec' = r.nrec /\ errAt' = r.errAt
+                /\ toks' = (IF Hist THEN Append(toks, t) ELSE toks) /\ nrec' = r.nrec /\ errAt' = r.errAt /\ sid' = sid
                 /\ stack' = r.stack /\ lastNL' = r.lastNL /\ omit' = r.omit /\ errored' = r.err
                 /\ status' = r.status /\ bad' = r.bad /\ out' = r.out
 
